@@ -3,7 +3,7 @@ import re
 
 from hypothesis import strategies as st
 
-from vf import h5
+from vf import h5, obs
 from vf.core import Acc, Verdict, active, drive, guarded, short, sig64
 from vf.gen import soup
 
@@ -170,14 +170,69 @@ def check_case(case):
                            % (walker, k, short(live[k:k + 1], 100), short(want[k:k + 1], 100), short(text, 160)), "live-walker-differs", nontrivial=True)
         if again != toks:
             return Verdict("fail", "a second walk of the same tree differs after filtering the first; input %s" % short(text, 160), "walk-poisoned", nontrivial=True)
+        # the same two clauses judged against the TREE (our own traversal) instead of the walker's account of it: every
+        # non-whitespace character of the tree comes out, in order; and where the tree says 'not inside pre/textarea/raw text'
+        # no tab, newline or form feed survives
+        msg = tree_clause(obs.flat(r), want)
+        if msg:
+            return Verdict("fail", "%s; %s walker, input %s" % (msg, walker, short(text, 200)), "tree:" + msg.split(":")[0][:40], nontrivial=True)
     return v
+
+
+def _tree_groups(fl):
+    """maximal text runs of the tree in document order, each with 'judged' = no ancestor is named like a preserve / undecided element"""
+    out, stack, last = [], [], None
+    for r in fl:
+        d = r[0]
+        while stack and stack[-1][0] >= d:
+            stack.pop()
+        if r[1] == "text":
+            if last is not None and last == d:
+                out[-1] = (out[-1][0] + r[2], out[-1][1])
+            else:
+                out.append((r[2], not any(f for _, f in stack)))
+            last = d
+            continue
+        last = None
+        if r[1] == "elem":
+            stack.append((d, r[3] in PRESERVE or r[3] in DONTCARE))
+    return out
+
+
+def tree_clause(fl, filtered):
+    tg = _tree_groups(fl)
+    fg = []
+    prev_text = False
+    for t in filtered:
+        if t["type"] in TEXT:
+            if prev_text:
+                fg[-1] += t["data"]
+            else:
+                fg.append(t["data"])
+            prev_text = True
+        else:
+            prev_text = False
+    strip = lambda x: _RUN.sub("", x)
+    a, b = "".join(strip(x[0]) for x in tg), "".join(strip(x) for x in fg)
+    if a != b:
+        k = next((i for i, (x, y) in enumerate(zip(a, b)) if x != y), min(len(a), len(b)))
+        return "non-whitespace characters lost or altered: the tree has %s where the filtered stream has %s (character %d)" % (ascii(a[k:k + 12]), ascii(b[k:k + 12]), k)
+    if len(tg) == len(fg):
+        for (tt, judged), ft in zip(tg, fg):
+            if judged and re.search("[\t\n\x0c\r]", ft):
+                return "white space not collapsed: the text %s lies outside pre/textarea/raw-text elements in the tree and comes out as %s" % (ascii(tt[:40]), ascii(ft[:40]))
+    return None
 
 
 _WS = st.sampled_from([" ", "  ", "\n", "\t", "\x0c", "\r\n", " \n ", "&#32;", "&#9;", "&#10; ", " &#32; ", "\xa0", " ", " ", "a", "b c", "x  y", " x ", "&amp;", "&lt; "])
 _WRAP = st.sampled_from(["<pre>%s<br>%s</pre>", "<pre>%s<img>%s<b>%s</b>%s</pre>", "<pre><b>%s</b>%s</pre>", "<textarea>%s</textarea>%s", "<pre>%s<hr>%s<input>%s</pre>%s", "<pre>%s</pre>", "<p>%s</p>", "<textarea>%s</textarea>", "<pre><b>%s</b> </pre>", "<script>%s</script>", "<style>%s</style>", "<xmp>%s</xmp>",
                          "<div> %s </div>", "<span>%s</span> ", "<b> %s<i> </i></b>", "<table> <tr> <td> %s </table>", "<svg><style>%s</style></svg>", "<title>%s</title>",
                          "<pre><pre>%s</pre>%s</pre>", "<pre><p>%s</pre><div>%s</div>", "<pre><table><colgroup><col></colgroup> </table>%s</pre>%s", "<pre><ul><li>%s</ul>%s</pre>%s",
-                         "<pre><dl><dt>%s<dd>%s</dl></pre>%s", "<textarea>%s</textarea><ul><li>%s<li>%s</ul>", "<pre><table><tr><td>%s</table>%s</pre> %s", "<noscript>%s</noscript>", "<ul> <li> %s </ul>", "%s<br>%s", "<!--c-->%s", "<pre>%s<textarea>%s</textarea>%s</pre>", "<iframe>%s</iframe>"])
+                         "<pre><dl><dt>%s<dd>%s</dl></pre>%s", "<textarea>%s</textarea><ul><li>%s<li>%s</ul>", "<pre><table><tr><td>%s</table>%s</pre> %s", "<noscript>%s</noscript>", "<ul> <li> %s </ul>", "%s<br>%s", "<!--c-->%s", "<pre>%s<textarea>%s</textarea>%s</pre>", "<iframe>%s</iframe>",
+                         # text that reaches the tree in one piece although it holds white space (foster-parented table text, CDATA sections, plaintext),
+                         # and elements whose NAME merely ends like a preserve element's
+                         "<table> %s<tr><td>%s</table>", "<table><tr> %s</table>%s", "<svg><![CDATA[ %s ]]></svg>", "<math><mi> %s</mi><![CDATA[%s]]></math>", "<x}pre>%s</x}pre>",
+                         "<my}script>%s</my}script>%s", "<t}textarea>%s</t}textarea>", "<o:pre>%s</o:pre>", "<select> %s<option> %s</select>", "<div>%s<plaintext> %s"])
 
 
 @st.composite
